@@ -41,6 +41,13 @@ pub fn any_lww() -> LwwRegister<SDS> {
     let ts = any_clock();
     LwwRegister { value: if has && !tomb { Some(v) } else { None }, timestamp: ts, tombstone: tomb }
 }
+/// LWW replicated value holding one byte (or a tombstone) with the given stamp
+pub fn lww_value(b: u8, tomb: bool, ts: LamportClock) -> ReplicatedValue {
+    ReplicatedValue {
+        crdt: CrdtValue::Lww(LwwRegister { value: if tomb { None } else { Some(sds1(b)) }, timestamp: ts, tombstone: tomb }),
+        vector_clock: None, expiry_ms: None, timestamp: ts, replication_factor: None,
+    }
+}
 pub fn any_opt_u64() -> Option<u64> {
     let has = vs::bool();
     let v = vs::u64();
